@@ -72,6 +72,37 @@ async def _logged_context_from_ticks(self, workflow, run_id):
 _pr.TickPersistenceDecorator.context_from_ticks = _logged_context_from_ticks
 
 
+_LAT_METHODS = ("query", "update", "delete", "append_event", "query_events", "append_tick", "get_ticks", "update_handler_status")
+
+
+def add_store_latency(store, world) -> None:
+    """Store I/O that really suspends (as a networked database would): every coroutine method of this store object may yield
+    to the event loop before and after the real call, for zero or 1/1024 s, as the tape decides.  The real call itself is
+    unchanged; only where the caller can be interleaved changes."""
+    T = 1.0 / 1024
+
+    def wrap(name, fn):
+        async def slow(*a, **k):
+            d = world.tape.draw(5, "store.lat.pre")
+            if d == 3:
+                await asyncio.sleep(0)
+            elif d == 4:
+                await asyncio.sleep(T)
+            try:
+                return await fn(*a, **k)
+            finally:
+                d = world.tape.draw(5, "store.lat.post")
+                if d >= 3:
+                    world.fault("store-latency")
+                    await asyncio.sleep(0 if d == 3 else T)
+        slow.__name__ = name
+        return slow
+    for name in _LAT_METHODS:
+        fn = getattr(store, name, None)
+        if fn is not None and asyncio.iscoroutinefunction(fn):
+            setattr(store, name, wrap(name, fn))
+
+
 class Incarnation:
     """One 'process': runtime stack + service + everything it spawns, all in one contextvars.Context."""
 
@@ -92,6 +123,9 @@ class Incarnation:
             self.store = SqliteWorkflowStore(w.tmp.db(), poll_interval=cfg.get("poll_interval", 1.0))
         else:
             self.store = w.memory_store
+        if cfg.get("store_latency") and not getattr(self.store, "_verif_latency", False):
+            add_store_latency(self.store, w)
+            self.store._verif_latency = True
         self.basic = BasicRuntime()
         self.persistence = PersistenceDecorator(self.basic, store=self.store)
         self.idle = IdleReleaseDecorator(self.persistence, store=self.store, idle_timeout=cfg.get("idle_timeout", 60.0))
